@@ -12,7 +12,7 @@ import weakref
 
 import toolz
 from tornado import gen
-from tornado.locks import Condition
+from tornado.locks import Condition, Lock
 from tornado.ioloop import IOLoop
 from tornado.queues import Queue
 
@@ -1543,6 +1543,7 @@ class rate_limit(Stream):
     def __init__(self, upstream, interval, **kwargs):
         self.interval = convert_interval(interval)
         self.next = 0
+        self._lock = Lock()
 
         kwargs["ensure_io_loop"] = True
         Stream.__init__(self, upstream, **kwargs)
@@ -1551,11 +1552,15 @@ class rate_limit(Stream):
     def update(self, x, who=None, metadata=None):
         # the element is held while it waits for its slot and is delivered
         self._retain_refs(metadata)
-        now = time()
-        old_next = self.next
-        self.next = max(now, self.next) + self.interval
-        if now < old_next:
-            yield gen.sleep(old_next - now)
+        # one element at a time, in arrival order; the next slot is counted
+        # from the moment this element really leaves, so that timers firing
+        # late (a busy loop) can neither reorder elements nor let two of them
+        # out closer together than the interval
+        with (yield self._lock.acquire()):
+            now = time()
+            if now < self.next:
+                yield gen.sleep(self.next - now)
+            self.next = time() + self.interval
         yield self._emit(x, metadata=metadata)
         self._release_refs(metadata)
 
